@@ -201,7 +201,7 @@ def correspondence(chk):
 
 def extra(chk, info, res):
     from checks import decisions_common as _dc
-    _dc.tie(chk, ['heating'])
+    _dc.tie(chk, ['heating', 'guards_heating'])
     from checks import guards_common
     guards_common.correspondence(chk, ['filtration_allow_heating', 'filtration_ready_for_heating'])
     if info is not None:
